@@ -60,6 +60,13 @@ def prep_schema(detector, medium_index, illum_wavelen, illum_polarization):
 
     if len(illum_wavelen) > 1 or ensure_array(illum_polarization).ndim == 2:
         #  multiple illuminations to calculate
+        # wavelengths without labels are listed in the order of the
+        # detector's own channels, if it has channels
+        detector_labels = None
+        if (illumination in detector.dims and
+                not isinstance(illum_wavelen, xr.DataArray) and
+                len(detector[illumination]) == len(illum_wavelen)):
+            detector_labels = detector[illumination].values
         if illumination in illum_polarization.dims:
             if isinstance(illum_wavelen, xr.DataArray):
                 pass
@@ -67,15 +74,21 @@ def prep_schema(detector, medium_index, illum_wavelen, illum_polarization):
                 if len(illum_wavelen) == 1:
                     illum_wavelen = illum_wavelen.repeat(
                         len(illum_polarization.illumination))
+                labels = illum_polarization.illumination
+                if (detector_labels is not None and
+                        set(detector_labels) == set(labels.values)):
+                    labels = detector_labels
                 illum_wavelen = xr.DataArray(
                     illum_wavelen, dims=illumination,
-                    coords={illumination: illum_polarization.illumination})
+                    coords={illumination: labels})
         else:
             #  need to interpret illumination from detector.illum_wavelen
             if not isinstance(illum_wavelen, xr.DataArray):
+                labels = (illum_wavelen if detector_labels is None
+                          else detector_labels)
                 illum_wavelen = xr.DataArray(
                     illum_wavelen, dims=illumination,
-                    coords={illumination: illum_wavelen})
+                    coords={illumination: labels})
             illum_polarization = xr.broadcast(
                 illum_polarization, illum_wavelen, exclude=[vector])[0]
 
